@@ -177,6 +177,18 @@ func sortStrings(s []string) {
 	}
 }
 
+func init() {
+	for _, id := range []string{"C01", "C02"} {
+		core.SetCrashTagLogHook(id, func(env *core.Env, idx int, logPath string) []string {
+			t := core.StickyTagsFromLog(logPath, idx)
+			if len(t) == 1 && t[0] == "none" {
+				return nil
+			}
+			return t
+		})
+	}
+}
+
 func crashCase(env *core.Env, idx int, prop, bias string) *core.CaseResult {
 	r := env.Rand(idx)
 	res := core.NewResult()
@@ -283,9 +295,27 @@ func crashCase(env *core.Env, idx int, prop, bias string) *core.CaseResult {
 	nPoint := 0
 	hung := false
 	tornAtEOF := false
+	lastPre := ""
 	check := func(k int, img *rec.Image, tear string, last string) {
 		if hung {
 			return
+		}
+		// (a child that dies inside a recovery cannot report the input-side tags of the crash image it was working on:
+		// they are printed to its log before the recovery starts, see core.SetCrashTagLogHook)
+		pre := "none"
+		if tear != "" {
+			switch {
+			case strings.HasPrefix(last, "WritePage") && tornAtEOF:
+				pre = "torn-page-write-at-end-of-file"
+			case strings.HasPrefix(last, "WritePage"):
+				pre = "torn-page-write"
+			default:
+				pre = "torn-log-write"
+			}
+		}
+		if pre != lastPre {
+			fmt.Fprintf(os.Stderr, "STICKY-TAGS idx=%d %s\n", idx, pre)
+			lastPre = pre
 		}
 		rc := crashlab.Recover(path, img, memKB, p.Tables, true)
 		if rc.Hung {
